@@ -229,7 +229,7 @@ class SO2(SMPose):
         :rtype: SE2 instance
 
         """
-        return SE2(tr.rt2tr(self.A, [0, 0]))
+        return SE2(tr.rt2tr(self.A, [0, 0]), check=False)
 
 
 # ============================== SE2 =====================================#
@@ -489,7 +489,7 @@ class SE2(SO2):
             y[:2, 3] = x.A[:2, 2]
             y[2, 3] = z
             return y
-        return p3.SE3([lift3(x) for x in self])
+        return p3.SE3([lift3(x) for x in self], check=False)
 
     def Twist2(self):
         from spatialmath.twist import Twist2
